@@ -233,16 +233,16 @@ def jobs(tier):
         for size in spec.sizes[tier]:
             if q and (sum(size) > 4 or 0 in size):
                 continue
-            if not q and sum(size) > 6:
+            if not q and (sum(size) > 6 or (spec.name.startswith('transcription') and sum(size) > 4)):
                 continue
             js.append(shift_job(spec, size))
-    for size in ([(1, 1), (2, 1)] if q else [(1, 1), (2, 1), (1, 2), (2, 2)]):
+    for size in ([(1, 1), (2, 1)] if q else [(1, 1), (2, 1), (1, 2)]):
         js.append(beat_evaluate_shift(size))
     for size in ([(1, 1), (2, 1)] if q else [(1, 1), (2, 1), (1, 2), (2, 2)]):
         js.append(chord_evaluate_shift(size))
     for nm in ('transcription.precision_recall_f1_overlap', 'transcription.precision_recall_f1_overlap[no offset]', 'transcription.onset_precision_recall_f1',
                'transcription.offset_precision_recall_f1'):
-        for size in ([(2, 2)] if q else [(2, 2), (2, 3)]):
+        for size in ([(2, 2)] if q else [(2, 2), (1, 3), (3, 1)]):
             js.append(perm_notes_job(T.by_name(nm), size))
     js.append(perm_multipitch_job())
     js.append(perm_tempo_job())
